@@ -220,8 +220,24 @@ fn digest_prop<P: Prop>(p: &P, tier: Tier, runs: u64) -> String {
 macro_rules! dispatch {
     ($id:expr, |$p:ident| $body:expr) => {
         match $id {
+            "C02" => {
+                let $p = &props::capfam::CapProp(props::capfam::Which::C02);
+                $body
+            }
+            "C09" => {
+                let $p = &props::capfam::CapProp(props::capfam::Which::C09);
+                $body
+            }
+            "C10" => {
+                let $p = &props::c10::C10;
+                $body
+            }
             "C07" => {
                 let $p = &props::c07::C07;
+                $body
+            }
+            "C08" => {
+                let $p = &props::c08::C08;
                 $body
             }
             other => {
@@ -232,7 +248,7 @@ macro_rules! dispatch {
     };
 }
 
-pub const CLAIMED: [&str; 1] = ["C07"];
+pub const CLAIMED: [&str; 5] = ["C02", "C07", "C08", "C09", "C10"];
 
 fn main() -> ExitCode {
     engine::install_panic_hook();
